@@ -1880,6 +1880,9 @@ func (c *leafCtx) expr7(e ast.Expr, want string) (string, string, bool) {
 						return r, xt, true
 					}
 				}
+				if r, t, ok := c.append9(x); ok {
+					return r, t, true
+				}
 				c.fail("append to a slice modelled without a capacity")
 				return "0", want, true
 			case "make":
@@ -2220,6 +2223,7 @@ func findRange(body *ast.BlockStmt, rs rangeSpec) ([]ast.Stmt, string) {
 
 func (c *leafCtx) translateRange7(ds *dirState, l leaf7Spec, fd *ast.FuncDecl, fset *token.FileSet, mode int, rs rangeSpec) (string, *leafInfo) {
 	c.gen7, c.mode = true, mode
+	markSelfAppends(fd)
 	c.ren, c.declDepth, c.sites, c.nsite = map[string]string{}, map[string]int{}, map[token.Pos]string{}, map[string]int{}
 	c.callbacks = map[string][]string{}
 	c.aliasOf = map[string]string{}
@@ -2271,6 +2275,7 @@ func (c *leafCtx) translate7(ds *dirState, l leaf7Spec, fd *ast.FuncDecl, fset *
 		return c.translateRange7(ds, l, fd, fset, mode, rs)
 	}
 	c.gen7, c.mode = true, mode
+	markSelfAppends(fd)
 	c.ren, c.declDepth, c.sites, c.nsite = map[string]string{}, map[string]int{}, map[token.Pos]string{}, map[string]int{}
 	c.callbacks = map[string][]string{}
 	c.logVars = map[string]bool{}
@@ -2547,6 +2552,10 @@ var leaves7 = []leaf7Spec{
 	{"net/nts", "Authenticator.unpack", "nts_Authenticator_unpack", "LeafNts"},
 	{"net/nts", "UniqueIdentifier.unpack", "nts_UniqueIdentifier_unpack", "LeafNts"},
 	{"net/nts", "Cookie.unpack", "nts_Cookie_unpack", "LeafNts"},
+	// ninth generation (leaf9.go): the extension-field walk of DecodePacket
+	{"net/nts", "CookiePlaceholder.unpack", "nts_CookiePlaceholder_unpack", "LeafNts"},
+	{"net/nts", "extHdr.unpack", "nts_extHdr_unpack", "LeafNts"},
+	{"net/nts", "DecodePacket", "nts_DecodePacket", "LeafNts"},
 	// eighth generation (leaf8.go): the clock object — recorded system calls with their argument
 	// values, pointers to immutable structs with identity, the expiry goroutine
 	{"driver/clocks", "setOffset", "clocks_setOffset", "LeafClocks"},
